@@ -343,7 +343,7 @@ func Run(r *report.Run) {
 	if r.Tier == "thorough" {
 		n = 5
 	}
-	r.Rule = fmt.Sprintf("version universe 1..%d; every directory (each version absent / migration file / checkpoint file) x every revision table (any subset of the universe fully applied, last one optionally partial 1/2) x exec-order {linear, linear-skip, non-linear} x {no option, allow-dirty, baseline=v for every v} x {clean, dirty}; real Executor.Pending on MemDir compared with the set-based reference model refPending; then ExecuteN(n) for every n on the real Executor; non-trivial = configuration with a non-empty directory and a decision other than plain 'all files'; distinct by construction", n)
+	r.Rule = fmt.Sprintf("version universe 1..%d; every directory (each version absent / migration file / checkpoint file) x every revision table (any subset of the universe fully applied, last one optionally partial 1/2) x exec-order {linear, linear-skip, non-linear} x {no option, allow-dirty, baseline=v for every v} x {clean, dirty}; real Executor.Pending on MemDir compared with the set-based reference model refPending; then ExecuteN(n) for every n on the real Executor; plus a BFS (depth 4, thorough 5) over CLI histories on a real SQLite file with the alphabet {add file, add file whose 2nd statement fails, add out-of-order file, apply, apply 1, apply --exec-order non-linear / linear-skip, set 2, set 4, fix the failing file, remove the newest file}: in the reached state `migrate status` must report the pending/out-of-order files of the reference model fed with the actual revision rows, `migrate apply [n]` must execute exactly the statements the decision implies (journal table written by the statements), and after `migrate set v` nothing up to v may be pending; non-trivial = configuration with a non-empty directory and a decision other than plain 'all files'; distinct by construction", n)
 	r.Assumptions = []string{
 		"versions are fixed-width digit strings so name order and version order coincide",
 		"every file has two statements; a partial revision has Applied=1 of 2 with the executor's own partial hash",
@@ -377,11 +377,19 @@ func Run(r *report.Run) {
 			r.Sample(map[string]any{"config": c, "decision": o.got})
 		}
 	}
+	cliDepth := 4
+	if r.Tier == "thorough" {
+		cliDepth = 5
+	}
+	cs, ct := RunCLI(r, cliDepth)
+	r.Set("cli_bfs_depth", cliDepth)
+	r.Set("cli_states", cs)
+	r.Set("cli_transitions", ct)
 	r.Set("outcome_classes", classes)
 	r.Set("unspecified_by_documentation", unspec)
-	r.Set("states", len(cfgs))
-	r.Set("transitions", len(cfgs))
-	r.Set("traces_validated_against_impl", len(cfgs))
+	r.Set("states", len(cfgs)+cs)
+	r.Set("transitions", len(cfgs)+ct)
+	r.Set("traces_validated_against_impl", len(cfgs)+ct)
 }
 
 func hasCk(c Config) bool {
@@ -399,6 +407,17 @@ func cfgString(c Config) string {
 }
 
 func Replay(r *report.Run, raw json.RawMessage) {
+	var cv struct {
+		Case struct {
+			History []cliOp `json:"cli_history"`
+		}
+	}
+	if json.Unmarshal(raw, &cv) == nil && len(cv.Case.History) > 0 {
+		r.Case("a", true)
+		r.Case("b", true)
+		ReplayCLI(r, cv.Case.History)
+		return
+	}
 	var v struct{ Case Config }
 	if err := json.Unmarshal(raw, &v); err != nil {
 		r.Violate("", "bad replay file: "+err.Error(), nil)
